@@ -228,6 +228,11 @@ func mergeStates(conds []*Term, sts []*State) *State {
 	if len(sts) == 1 {
 		return sts[0].clone()
 	}
+	for _, st := range sts[1:] {
+		if st.epoch != sts[0].epoch {
+			panic("internal: merging states of different epochs")
+		}
+	}
 	res := &State{m: map[string]*Term{}, epoch: sts[0].epoch}
 	keys := map[string]bool{}
 	for _, st := range sts {
